@@ -250,6 +250,11 @@ def run(f, fixture, rep, cfg, tier):
                       "other file types are an error and touch nothing", "the Invalid arm performs filesystem calls or does not return an error", ex.span)
 
 
+    # ---- R6 the bytes written for a file are the archived bytes: rests on the payload reader's accounting (C07.R4) ----------
+    rep.rule("R6", "the payload reader hands extract() each file's exact bytes (C07.R4)")
+    rep.include("c07", f, fixture, cfg, tier, "R6", "payload reader accounting and read limit", only_rules={"R4"}, floor=3)
+
+
 def check_sanitiser(b, rep):
     tb = TermBuilder(b)
     # accumulated target: the PathBuf that is returned
